@@ -13,6 +13,7 @@ C01 driver.
 import Gms.Driver.SqlProto
 import Gms.Model.Phys
 import Gms.Model.PhysRegions
+import Gms.Model.PhysKeys
 open Gms.Proto Gms.Sql Gms.Rel Gms.SqlProto Gms.Phys
 
 def boolStr (b : Bool) : String := if b then "true" else "false"
@@ -62,6 +63,20 @@ def mergeModel (db : Db) (q : Query) (ops : List String) : Option (List Row) :=
     else none
   | _, _ => none
 
+def keyKind? : Sexp → Option Gms.PhysKeys.KeyKind
+  | .atom "r" => some .raw
+  | .atom "c" => some .ci
+  | .atom "n" => some .num
+  | _ => none
+
+/-- `(kinds (r c r) (r n r) …)`: the kind of every column of every table (keq stream). -/
+def kinds? (items : List Sexp) : Option (List (List Gms.PhysKeys.KeyKind)) :=
+  match field items "kinds" with
+  | some (.list (_ :: tabs)) => tabs.mapM fun t => match t with
+    | .list ks => ks.mapM keyKind?
+    | _ => none
+  | _ => none
+
 def handle (p : List Sexp) : String :=
   match p with
   | [.list [.atom "checkprop", e, a, b, l, r]] =>
@@ -70,12 +85,28 @@ def handle (p : List Sexp) : String :=
     | _, _, _, _, _ => answer "bad-case"
   | [.list (.atom "c01" :: items)] =>
     let ordered := fieldArgs items "ordered" == [Sexp.atom "1"]
-    match (field items "db").bind db?, (fieldArgs items "q").head?.bind query? with
+    -- keq stream: the term is evaluated on the NORMAL FORMS of the key columns (Gms.PhysKeys)
+    let rawDb := ((field items "db").bind db?).map (·.2) |>.getD []
+    let kss := (kinds? items).getD []
+    let dbN : Option (List (List Ty) × Db) :=
+      match (field items "db").bind db? with
+      | none => none
+      | some (tys, db) =>
+        if (field items "kinds").isNone then some (tys, db)
+        else match kinds? items with
+          | none => none
+          | some kss =>
+            (Gms.PhysKeys.normDb kss db).map fun db' =>
+              ((kss.zip tys).map fun p => Gms.PhysKeys.normTys p.1 p.2, db')
+    match dbN, (fieldArgs items "q").head?.bind query? with
     | some (tys, db), some q =>
       if check tys db q then
         let ops := atomStrs (fieldArgs items "plan")
         let spec := showRows ordered (eval db q)
-        match Gms.PhysRegions.region db q ops with
+        let reg := match Gms.PhysRegions.region db q ops with
+          | some r => some r
+          | none => if kss.isEmpty then none else Gms.PhysRegions.keqRegion kss rawDb q ops
+        match reg with
         | none =>
           -- a plain two-table merge join: the Impl model is the merge-join model on index-ordered inputs
           match mergeModel db q ops with
